@@ -107,7 +107,8 @@ def check(scratch, exe, a, t0):
         path = os.path.join(work, "sk%05d.ms" % ci)
         with open(path, "w") as f:
             f.write(SK.module_source(funcs))
-        programs.append((path, {n: (sp, lf, v) for n, sp, lf, v in funcs}))
+        # the compiler names the j-th function literal of a module `__fn<j>`
+        programs.append((path, {"__fn%d" % j: (sp, lf, v) for j, (n, sp, lf, v) in enumerate(funcs)}))
     # corpus
     corpus = sorted(glob.glob(os.path.join(scratch.repo, "examples", "**", "*.ms"), recursive=True) +
                     glob.glob(os.path.join(scratch.repo, "leetcode_problems", "**", "*.ms"), recursive=True))
@@ -180,7 +181,8 @@ def report(a, scratch, results, viol, unknown, unmodelled, mism, real, crashed, 
         path, fname, meta = fmap[r["name"]]
         confirmed = path in crashed_paths or path in real_paths
         for kind, ip, detail in r["violations"] or [("unspecified", -1, "")]:
-            key = ("C09", fname if meta is None else "skeleton", os.path.basename(path) if meta is None else " > ".join(meta[fname][0]) + " > " + meta[fname][1], kind, "any")
+            sk = meta.get(fname) if meta else None
+            key = ("C09", "skeleton" if sk else fname, (" > ".join(sk[0]) + " > " + sk[1]) if sk else os.path.basename(path), kind, "any")
             ent = {"function": r["name"], "what": describe(meta, fname), "kind": kind, "ip": ip, "detail": detail, "confirmed_by_real_run": confirmed, "key": key}
             if key in known:
                 print("KNOWN-FINDING: property=C09 %s %s: %s" % (ent["what"], kind, known[key].get("what", detail)))
@@ -198,6 +200,8 @@ def report(a, scratch, results, viol, unknown, unmodelled, mism, real, crashed, 
         if k in seen:
             continue
         seen.add(k)
+        if len(seen) > 25:
+            continue      # every violation counts; only the first 25 get a replay file and a line
         rp = V.save_replay("C09", re.sub(r"[^A-Za-z0-9]+", "_", "%s_%s_%s" % (os.path.basename(path), ent["function"], ent["kind"]))[:120],
                            {"property": "C09", "program": open(path).read(), "entry": ent})
         print("VIOLATION property=C09 replay=%s" % rp)
